@@ -24,6 +24,20 @@ so every distinct C source is compiled by exactly one worker):
               well-formed controls they are derived from, plus the documented refusal of oriented
               Python models.
 
+  O "oriented": C flavour only (oriented Python models are refused by design): tables r (volume), b (plain),
+              optionally one vector parameter t (volume | plain; t[2] | t[3] | t[n] with the control n before or
+              after it) at every position before the angles, then theta, phi (Iqac) or theta, phi, psi (Iqabc);
+              Iqac / Iqabc are closed forms of (qab, qc) / (qa, qb, qc) and every parameter.  Inputs: four view-angle
+              sets, dispersity on r and on t1, off-nominal values, 2-D q in all four quadrants (plus the 1-D call).
+              Oracle: (qa,qb,qc) = (qx,qy,0) . Rz(phi) Ry(theta) Rz(psi) (the documented view rotation, no jitter),
+              the closed form evaluated in numpy, C01 reference mean.
+  S "same-name": two / three DIFFERENT definitions written to files with the SAME basename in different
+              directories (flavour combinations c/c, c/py, py/c, py/py, c/py/c; modification times equal /
+              increasing / decreasing), loaded and evaluated in ONE fresh process (zygote) in the orders
+              A,B,A / B,A,B / A,B,A,B (three files: A,B,C,A / C,B,A,C / A,B,C,A,B,C); every step is judged
+              against the formula of the file actually requested and the engine class (PyModel / DllModel) must
+              be the one of that file's flavour.
+
 Per program, inputs are enumerated deviation-bounded (<= 2 dimensions off default): off-nominal values,
 dispersity on each of the first three volume call parameters (gaussian/uniform, 2..5 points, one
 alternative truncated by the lower limit), cutoff 0 / 0.05, 1-D / 2-D q, effective-radius mode.
@@ -210,7 +224,7 @@ def expr_trees(k):
 
 
 def nleaves(t):
-    return 1 if t[0] in ("q", "p", "c", "e") else sum(nleaves(x) for x in t[1:])
+    return 1 if t[0] in ("q", "a", "p", "c", "e") else sum(nleaves(x) for x in t[1:])
 
 
 def cases(ctx):
@@ -260,6 +274,17 @@ def cases(ctx):
         if ctl in ("plain", "vector"):
             out.append({"kind": "control", "what": ctl, "flavour": "py"})
     out.append({"kind": "py-oriented"})
+    # ---- O: oriented C definitions
+    for sym in ("ac", "abc"):
+        out.append({"kind": "oriented", "sym": sym, "vec": None})
+        for vec in ("fix2", "fix3", "ctl-before", "ctl-after"):
+            for vtype in ("volume", ""):
+                for vpos in (0, 1, 2):
+                    out.append({"kind": "oriented", "sym": sym, "vec": vec, "vtype": vtype, "vpos": vpos})
+    # ---- S: files with the same basename
+    for flav in (["c", "c"], ["c", "py"], ["py", "c"], ["py", "py"], ["c", "py", "c"]):
+        for mt in ("equal", "increasing", "decreasing"):
+            out.append({"kind": "same-name", "flavours": flav, "mtime": mt})
     return out
 
 
@@ -299,6 +324,10 @@ def run_case(case, ctx):
         return _run_control(case, ctx)
     if case["kind"] == "py-oriented":
         return _run_py_oriented(case, ctx)
+    if case["kind"] == "oriented":
+        return _run_oriented(case, ctx)
+    if case["kind"] == "same-name":
+        return _run_same_name(case, ctx)
     raise HarnessError("unknown case kind %r" % case["kind"])
 
 
@@ -679,6 +708,281 @@ def _run_py_oriented(case, ctx):
                   % (i2, open(path).read()), {"clause": "py-oriented", "how": "accepted"}, branches=["py-oriented-judged"])
 
 
+# ------------------------------------------------------------------------------------------------
+# O: oriented C definitions
+
+ANGLES = [[30.0, 20.0, 10.0], [0.0, 0.0, 0.0], [60.0, -35.0, 115.0], [-70.0, 200.0, -40.0]]
+Q2O = [[0.5, 0.2], [-0.1, 1.3], [0.13, -0.3], [-0.7, -0.4]]
+
+
+def make_oriented(case):
+    sym, vec = case["sym"], case["vec"]
+    r_ = {"name": "r", "type": "volume", "default": 1.1, "lo": 0.0, "hi": INF}
+    b_ = {"name": "b", "type": "", "default": 1.2, "lo": -INF, "hi": INF}
+    pars = [r_, b_]
+    nodes = [["p", "r"], ["p", "b"]]
+    vnodes = [["p", "r"]]
+    if vec:
+        vol = case["vtype"] == "volume"
+        t_ = {"name": "t", "type": case["vtype"], "default": 1.3, "lo": 0.0 if vol else -INF, "hi": INF}
+        n = {"fix2": 2, "fix3": 3}.get(vec, 2)
+        group = [t_]
+        if vec.startswith("fix"):
+            t_["length"] = n
+        else:
+            t_["length"] = "n"
+            ctl = {"name": "n", "type": "", "default": 2, "lo": 0, "hi": 2}
+            group = [ctl, t_] if vec == "ctl-before" else [t_, ctl]
+            nodes.append(["p", "n"])
+        pars[case["vpos"]:case["vpos"]] = group
+        for k in range(n):
+            nodes.append(["e", "t", k])
+            if vol:
+                vnodes.append(["e", "t", k])
+    for nm, d in (("theta", 30.0), ("phi", 20.0)) + ((("psi", 10.0),) if sym == "abc" else ()):
+        pars.append({"name": nm, "units": "degrees", "type": "orientation", "default": d, "lo": -360.0, "hi": 360.0})
+    spec = {"pars": pars, "sym": sym}
+    spec["iq"] = G.lincomb([[("gau", "inv")[k % 2], ["mul", ["q"], nd]] for k, nd in enumerate(nodes)], 1.0, 0.5)
+    spec["volume"] = G.lincomb(vnodes, 1.0, 1.0)
+    if sym == "ac":
+        qab, qc = ["a", "qab"], ["a", "qc"]
+        spec["i2d"] = ["add", ["add", G.lincomb([["gau", ["mul", qab, nd]] for nd in nodes], 1.0, 0.5),
+                               G.lincomb([["inv", ["mul", qc, nd]] for nd in nodes], 0.75, 0.25)],
+                       ["mul", ["c", 0.2], qc]]
+    else:
+        qa, qb, qc = ["a", "qa"], ["a", "qb"], ["a", "qc"]
+        spec["i2d"] = ["add", ["add", ["add", G.lincomb([["gau", ["mul", qa, nd]] for nd in nodes], 1.0, 0.5),
+                                       G.lincomb([["inv", ["mul", qb, nd]] for nd in nodes], 0.75, 0.25)],
+                               G.lincomb([["gau", ["mul", qc, nd]] for nd in nodes], 0.6, 0.2)],
+                       ["add", ["mul", ["c", 0.2], qc], ["mul", ["c", 0.1], ["mul", qa, qb]]]]
+    return spec
+
+
+def write_oriented(spec, scratch, name):
+    import os
+    fn = "Iqac" if spec["sym"] == "ac" else "Iqabc"
+    src = [G.HEADER % {"doc": "oriented C definition", "name": name}, G.table_source(G.par_rows(spec)),
+           'Iq = """\n    return %s;\n"""\n' % G.render(spec["iq"], "c"),
+           '%s = """\n    return %s;\n"""\n' % (fn, G.render(spec["i2d"], "c")),
+           'form_volume = """\n    return %s;\n"""\n' % G.render(spec["volume"], "c")]
+    path = os.path.join(scratch, name + ".py")
+    with open(path, "w") as fh:
+        fh.write("".join(src))
+    return path
+
+
+def _rot(axis, deg):
+    c, s = np.cos(np.radians(deg)), np.sin(np.radians(deg))
+    if axis == "z":
+        return np.array([[c, -s, 0], [s, c, 0], [0, 0, 1]], float)
+    return np.array([[c, 0, s], [0, 1, 0], [-s, 0, c]], float)
+
+
+def oriented_point(spec, vals, Q, dim):
+    """direct evaluation of an oriented definition at one parameter point (view angles only, no jitter)"""
+    env = {}
+    for p in G.kernel_pars(spec):
+        if p["vector"]:
+            env[p["name"]] = [vals[p["name"] + str(k)] for k in range(1, p["n"] + 1)]
+        else:
+            env[p["name"]] = vals[p["name"]]
+    if dim == "1d":
+        env["q"] = np.asarray(Q, float)
+        F2 = G.evaluate(spec["iq"], env)
+    else:
+        Q = np.asarray(Q, float)
+        psi = vals["psi"] if spec["sym"] == "abc" else 0.0
+        V = _rot("z", vals["phi"]) @ _rot("y", vals["theta"]) @ _rot("z", psi)
+        q3 = np.zeros((len(Q), 3))
+        q3[:, :2] = Q
+        qabc = q3 @ V
+        env["qa"], env["qb"], env["qc"] = qabc[:, 0], qabc[:, 1], qabc[:, 2]
+        env["qab"] = np.sqrt(qabc[:, 0] ** 2 + qabc[:, 1] ** 2)
+        F2 = G.evaluate(spec["i2d"], env)
+    form = float(G.evaluate(spec["volume"], env))
+    return {"F2": np.asarray(F2, float), "F1": None, "form": form, "shell": form, "reff": 0.0}
+
+
+def _run_oriented(case, ctx):
+    from sasmodels import core
+    from sasmodels.direct_model import call_kernel
+    r = R()
+    spec = make_oriented(case)
+    label = "iq" + case["sym"] + ("+vector-%s-%s" % (case["vec"], case["vtype"] or "plain") if case["vec"] else "")
+    fk0 = {"family": "oriented", "feature": label, "clause": "c-vs-formula"}
+    r.branch("family:oriented")
+    r.branch("oriented:" + ("vector-before-angles" if case["vec"] else "no-vector"))
+    r.branch("oriented:" + case["sym"])
+    path = write_oriented(spec, ctx.scratch, "vo%s" % case_id(case))
+    try:
+        with warnings.catch_warnings():
+            warnings.simplefilter("ignore")
+            model = core.load_model(path, dtype="double", platform="dll")
+    except Exception as exc:  # noqa
+        return r.fail("well-formed oriented C definition could not be loaded/built: %r\n%s" % (exc, open(path).read()),
+                      dict(fk0, clause="build"), branches=["build-failed"])
+    info = model.info
+    cpars = {p.name: p for p in info.parameters.call_parameters}
+    k1 = model.make_kernel([np.array(Q1)])
+    k2 = model.make_kernel([np.array(Q2O)[:, 0].copy(), np.array(Q2O)[:, 1].copy()])
+    dims = [("nominal", False, [True]), ("angles", 0, [1, 2, 3]), ("pd:r", None, PD_ALTS[:2])]
+    if case["vec"] and case["vtype"] == "volume":
+        dims.append(("pd:t1", None, PD_ALTS[1:2]))
+    dims.append(("q", "2d", ["1d"]))
+    for ndev, cfg in deviations(dims, 2):
+        dim = cfg["q"]
+        vals = {}
+        for k, (nm, p) in enumerate(G.call_names(spec)):
+            v = float(p["default"])
+            if cfg["nominal"] and nm != "n" and p["type"] != "orientation":
+                v *= ctx.factor(k)
+            vals[nm] = v
+        ang = ANGLES[cfg["angles"]]
+        vals["theta"], vals["phi"] = ang[0], ang[1]
+        if case["sym"] == "abc":
+            vals["psi"] = ang[2]
+        pars = dict(vals, scale=SCALE, background=BACKGROUND)
+        disp = {}
+        for key, alt in cfg.items():
+            if key.startswith("pd:") and alt is not None:
+                nm = key[3:]
+                t, n, w = alt
+                pars[nm + "_pd"], pars[nm + "_pd_n"], pars[nm + "_pd_type"] = w, n, t
+                disp[nm] = refmodel.par_dist(cpars[nm], t, n, w, 3.0, vals[nm])
+        Q = Q1 if dim == "1d" else Q2O
+        ref = G.mean_from_points(lambda pt: oriented_point(spec, pt, Q, dim), len(Q),
+                                 dict(vals, scale=SCALE, background=BACKGROUND), disp, 0.0)
+        br = ["oriented-dim:" + dim]
+        if dim == "2d" and cfg["angles"]:
+            br.append("oriented-nondefault-angles")
+        if disp:
+            br.append("oriented-dispersed")
+        desc = "definition below; call: %s q=%s pars=%s" % (dim, Q, pars)
+        try:
+            with np.errstate(all="ignore"):
+                got = call_kernel(k1 if dim == "1d" else k2, dict(pars), cutoff=0.0)
+        except Exception as exc:  # noqa
+            r.fail("%s raised %r\n%s" % (desc, exc, open(path).read()), dict(fk0, clause="raises"), sub={"cfg": cfg}, branches=br)
+            continue
+        ok, err = refmodel.close(got, ref["I"], ref["mag"], rtol=1e-11)
+        if not ok:
+            r.fail("%s\n  C kernel %s\n  formula at (qa,qb,qc) = (qx,qy,0).Rz(phi)Ry(theta)Rz(psi): %s\n%s"
+                   % (desc, np.asarray(got), ref["I"], open(path).read()), dict(fk0, input=dim), sub={"cfg": cfg},
+                   nt=True, branches=br)
+            continue
+        r.ok(nt=(dim == "2d"), outcome="oriented:%s:%d" % (dim, min(ref["nqual"], 3)), branches=br)
+    r.extra["programs"] += 1
+    return r
+
+
+# ------------------------------------------------------------------------------------------------
+# S: different files with the same basename
+
+def _preload():
+    """zygote: import the library, load and evaluate nothing"""
+    import sasmodels.core, sasmodels.direct_model, sasmodels.kerneldll, sasmodels.kernelpy  # noqa
+    import sasmodels.generate, sasmodels.weights, sasmodels.custom  # noqa
+
+
+def setup(ctx):
+    from .. import zygote
+    zygote.start(ctx, "c09", _preload)
+
+
+SAME_ORDERS = {2: ["ABA", "BAB", "ABAB"], 3: ["ABCA", "CBAC", "ABCABC"]}
+
+
+def _same_specs():
+    """three definitions over the same table (r volume, b plain) with different formulas"""
+    trees = expr_trees(2)
+    return [make_spec("vp"), make_spec("vp", trees[7]), make_spec("vp", trees[41])]
+
+
+def _same_one(arg):
+    """(fresh process) load + evaluate the files in the given order; one list of messages per step"""
+    import tempfile
+    from sasmodels import core
+    from sasmodels.direct_model import call_kernel
+    tempfile.tempdir = arg["scratch"]
+    specs = _same_specs()
+    out = []
+    for step in arg["steps"]:
+        spec, flavour, path = specs[step["spec"]], step["flavour"], step["path"]
+        msgs = []
+        with warnings.catch_warnings():
+            warnings.simplefilter("ignore")
+            model = core.load_model(path, dtype="double", platform="dll")
+        engine = type(model).__name__
+        if engine != ("PyModel" if flavour == "py" else "DllModel"):
+            msgs.append("engine %s for a %s-flavour definition" % (engine, "Python" if flavour == "py" else "C"))
+        cpars = {p.name: p for p in model.info.parameters.call_parameters}
+        vals = {nm: float(p["default"]) for nm, p in G.call_names(spec)}
+        for dim, pd in (("1d", False), ("1d", True), ("2d", False)):
+            Q = np.array(Q1) if dim == "1d" else np.array(Q2)
+            kern = model.make_kernel([Q] if dim == "1d" else [Q[:, 0].copy(), Q[:, 1].copy()])
+            pars = dict(vals, scale=SCALE, background=BACKGROUND)
+            disp = {}
+            if pd:
+                pars["r1_pd"], pars["r1_pd_n"], pars["r1_pd_type"] = 0.2, 3, "gaussian"
+                disp["r1"] = refmodel.par_dist(cpars["r1"], "gaussian", 3, 0.2, 3.0, vals["r1"])
+            ref = G.mean_from_points(lambda pt: G.point_eval(spec, pt, Q, 0, dim), len(Q),
+                                     dict(vals, scale=SCALE, background=BACKGROUND), disp, 0.0)
+            with np.errstate(all="ignore"):
+                got = call_kernel(kern, dict(pars), cutoff=0.0)
+            ok, err = refmodel.close(got, ref["I"], ref["mag"], rtol=1e-11)
+            if not ok:
+                msgs.append("%s%s pars=%s: got %s, the requested file's formula gives %s"
+                            % (dim, " dispersed" if pd else "", pars, np.asarray(got), ref["I"]))
+        out.append(msgs)
+    return out
+
+
+def _run_same_name(case, ctx):
+    import os
+    from .. import zygote
+    r = R()
+    flav = case["flavours"]
+    base = "vs%s" % case_id(case)
+    specs = _same_specs()
+    files = []
+    t0 = 1.7e9
+    for k, fl in enumerate(flav):
+        d = os.path.join(ctx.scratch, "%s_dir%d" % (base, k))
+        os.makedirs(d, exist_ok=True)
+        paths = G.write_pair(specs[k], d, base)
+        path = os.path.join(d, base + ".py")
+        os.replace(paths[fl], path)
+        mt = t0 + {"equal": 0, "increasing": 10 * k, "decreasing": -10 * k}[case["mtime"]]
+        os.utime(path, (mt, mt))
+        files.append({"path": path, "flavour": fl, "spec": k, "letter": "ABC"[k]})
+    fk0 = {"clause": "same-name", "flavours": "/".join(flav), "mtime": case["mtime"]}
+    r.branch("same-name:%d-files" % len(flav))
+
+    def show(order):
+        return "\n".join("  %d. load_model(%r)   # file %s: %s flavour, mtime %+d s" % (
+            i + 1, files["ABC".index(c)]["path"], c, files["ABC".index(c)]["flavour"],
+            os.path.getmtime(files["ABC".index(c)]["path"]) - t0) for i, c in enumerate(order))
+    for order in SAME_ORDERS[len(flav)]:
+        steps = [files["ABC".index(c)] for c in order]
+        out = zygote.call(ctx, "c09", "mc.props.c09:_same_one", {"steps": steps, "scratch": ctx.scratch})
+        br = ["same-name-sequence"]
+        if "value" not in out:
+            r.fail("loading and evaluating in one fresh process, in this order:\n%s\nfailed: %s" % (show(order), out),
+                   dict(fk0, what="raises"), trans=len(order), branches=br)
+            continue
+        bad = [(i, m) for i, m in enumerate(out["value"]) if m]
+        if bad:
+            i, m = bad[0]
+            r.fail("loaded and evaluated in one fresh process, in this order:\n%s\nstep %d (file %s) is wrong (%d of %d "
+                   "steps wrong):\n  %s\n--- file A ---\n%s--- file B ---\n%s"
+                   % (show(order), i + 1, order[i], len(bad), len(order), "\n  ".join(m[:3]),
+                      open(files[0]["path"]).read(), open(files[1]["path"]).read()),
+                   dict(fk0, what="wrong-definition"), trans=len(order), branches=br)
+            continue
+        r.ok(nt=True, outcome="same-name:%s:ok" % order, trans=len(order), branches=br)
+    return r
+
+
 def finish(ctx, report):
     b = report.branches
     report.coverage = {"programs": int(report.extra.get("programs", 0))}
@@ -700,6 +1004,17 @@ def finish(ctx, report):
         report.require("dispersed-vector-element", 20, "dispersity on an element of a vector parameter")
         report.require("dim:2d", 100, "2-D q")
         report.require("reff-mode", 50, "effective-radius modes")
+    report.require("family:oriented", 50, "oriented C definitions")
+    report.require("oriented:vector-before-angles", 48, "oriented definitions with a vector parameter before theta")
+    report.require("oriented:ac", 25, "Iqac definitions")
+    report.require("oriented:abc", 25, "Iqabc definitions")
+    if not b.get("build-failed"):
+        report.require("oriented-dim:2d", 500, "2-D evaluations of oriented definitions")
+        report.require("oriented-nondefault-angles", 300, "non-default view angles")
+        report.require("oriented-dispersed", 200, "size dispersity in oriented definitions")
+    report.require("same-name:2-files", 12, "two files with the same basename")
+    report.require("same-name:3-files", 3, "three files with the same basename")
+    report.require("same-name-sequence", 45, "load/evaluate sequences over same-named files")
     report.require("control-judged", len(CONTROLS) + 2, "well-formed controls of the ill-formed list")
     report.require("py-oriented-judged", 1, "refusal of oriented python models")
     n_ill = sum(len(v) for v in ILLFORMED.values()) * 2
